@@ -16,6 +16,8 @@ DECODERS = {
     10: "SlatepackAddress::try_from", 11: "OnionV3Address::try_from", 12: "JSON PaymentProof",
     13: "JSON EncryptedRequest+decrypt", 14: "get_slate", 15: "deser_slatepack(decrypt=true)",
     16: "ser.rs helper (raw JSON value)", 17: "JSON StoredProofInfo",
+    18: "JSON api::ECDHPubkey", 19: "JSON api::Token", 20: "JSON api::Ed25519SecretKey",
+    21: "JSON BlockFees (build_coinbase, foreign listener)",
 }
 
 
